@@ -41,3 +41,12 @@
   (ite (or (< i 0) (>= i (vlen v))) acc (catPi v (+ i 1) (bcat acc (piDer (select (varr v) (+ (voff v) i)))))))
 (define-fun-rec catAx ((v (View S_cert_Admissions)) (i Int) (acc Bytes)) Bytes
   (ite (or (< i 0) (>= i (vlen v))) acc (catAx v (+ i 1) (bcat acc (axDer (select (varr v) (+ (voff v) i)))))))
+; basic constraints: the DER of the struct {IsCa bool optional; Pathlen int optional} as encoding/asn1 writes it
+(declare-fun deepS_S_cert_BasicConstraints (Deep Deep) Deep)
+(declare-fun deepv_Bool (Bool) Deep)
+(declare-fun deepv_Int (Int) Deep)
+(define-fun bcDer ((ca Bool) (pathLen Int)) Bytes (der (deepS_S_cert_BasicConstraints (deepv_Bool ca) (deepv_Int pathLen))))
+; extended key usage purposes (RFC 5280 4.2.1.12), index = cert.ExtKeyUsage
+(define-fun ekuBase () OidV (osnoc (osnoc (osnoc (osnoc (oid4e 1 3 6 1) 5) 5) 7) 3))
+(define-fun specEkuOid ((i Int)) OidV
+  (ite (= i 0) (osnoc ekuBase 1) (ite (= i 1) (osnoc ekuBase 2) (ite (= i 2) (osnoc ekuBase 3) (ite (= i 3) (osnoc ekuBase 4) (ite (= i 4) (osnoc ekuBase 8) (osnoc ekuBase 9)))))))
